@@ -46,4 +46,11 @@ PROPS = {
             "modelled": ["RefStream (lean/WorkflowModel/Model/Adapters/RefStream.lean) is the contract; memstreamer and its connector are tied to it by differential runs (exhaustive short sequences + random), not by a Lean model of the Go loop",
                          "would-block is observed through a context that reports cancellation after a fixed number of polls of the receiver's loop"],
             "assumptions": ["a receiver name is used on one topic (as the engine's role names are)", "one live receiver per name (C11 provides it)"]},
+    "C18": {"lean": ["WorkflowModel.Props.C18", "WorkflowModel.Props.C17", "WorkflowModel.Props.C12Store"],
+            "suites": ["sql-atomic", "sql-where", "sql-recordstore", "sql-timeoutstore"],
+            "modelled": ["the SQL engine is harness/minisql: an in-process database/sql driver for exactly the statement shapes the adapters emit (insert..set, update, delete, select with boolean conditions, order by, limit, offset), snapshot transactions per connection replayed at commit, "
+                         "now() with a clock advancing 1 ms per call, primary-key order for selects without ORDER BY, numeric comparison of int columns with numeric strings, byte-wise string comparison; a real MySQL server (collations, datetime ties, lock waits, isolation anomalies) is not modelled",
+                         "the transaction model runTx / sqlStore (lean/WorkflowModel/Model/Adapters/SqlStore.lean) is hand-written; tied by the fault-enumeration suite sql-atomic and the T2 call order of SQLStore.Store",
+                         "the where-builder model WB is hand-written; tied by sql-where (text and parameter count of every List shape against the statement log)"],
+            "assumptions": ["field names passed to the where builder contain no '?'", "created_at values of different runs differ (the engine clock ticks per now())"]},
 }
